@@ -104,6 +104,32 @@ def Tree.scripts : Tree → List Bytes
   | .leaf _ s => [s]
   | .node l r => l.scripts ++ r.scripts
 
+/-! ### the tree, position by position (what `script_num` indexes, and the path `tree_helper` accumulates) -/
+
+/-- the leaves `(masked version, script)` in tree order — what `script_num` indexes -/
+def Tree.flatten : Tree → List (Nat × Bytes)
+  | .leaf v s => [(v &&& LEAF_MASK, s)]
+  | .node l r => l.flatten ++ r.flatten
+
+/-- the positions of the leaves in tree order: `false` = into `script_tree[0]`, `true` = into `script_tree[1]` -/
+def Tree.positions : Tree → List (List Bool)
+  | .leaf _ _ => [[]]
+  | .node l r => l.positions.map (false :: ·) ++ r.positions.map (true :: ·)
+
+/-- the leaf at a position -/
+def Tree.leafAt : Tree → List Bool → Option (Nat × Bytes)
+  | .leaf v s, [] => some (v &&& LEAF_MASK, s)
+  | .node l _, false :: p => l.leafAt p
+  | .node _ r, true :: p => r.leafAt p
+  | _, _ => none
+
+/-- the merkle path of the leaf at a position: the sibling's root at every level, deepest first — what
+    `tree_helper` accumulates with `c + right_h` / `c + left_h` on the way up -/
+def pathOf (H : TagHash) : Tree → List Bool → Bytes
+  | .node l r, false :: p => pathOf H l p ++ root H r
+  | .node l r, true :: p => pathOf H r p ++ root H l
+  | _, _ => []
+
 section group
 variable {α : Type} (o : GroupOps α) (H : TagHash)
 
